@@ -67,16 +67,18 @@ def gen_programs(ctx, n, salt):
         g = rg.Gen(r, size=r.randint(1, 4))
         p = g.program()
         nd = rg.naming_distinct(p)
-        std = True
-        out.append(("gen-distinct", rg.single(rg.Render(nd).program(p), std)))
+        # one program in five bundles std (large dumps); the others declare `print` external
+        std = i % 5 == 0
+        pre = "" if std else rg.EXT_PRINT
+        out.append(("gen-distinct", rg.single(pre + rg.Render(nd).program(p), std)))
         ns = rg.naming_shadow(p, r)
-        out.append(("gen-shadow", rg.single(rg.Render(ns).program(p), std)))
+        out.append(("gen-shadow", rg.single(pre + rg.Render(ns).program(p), std)))
         for ss, k, b, lv in rg.plant_violations(p, r, 2):
             ss.insert(k, ("print", ("var", b)))
-            out.append(("gen-planted", rg.single(rg.Render(nd).program(p), std)))
+            out.append(("gen-planted", rg.single(pre + rg.Render(nd).program(p), std)))
             ss.pop(k)
         if hasattr(rg, "layouts"):
-            for files, main in rg.layouts(p, r, nd, 2):
+            for files, main in rg.layouts(p, r, nd, 2, prelude=pre):
                 out.append(("gen-multifile", rg.case(files, main, std)))
     if hasattr(rg, "module_noise"):
         for i in range(n):
@@ -149,30 +151,38 @@ def compare_resolver(cases, exe, mode="resolve"):
 
 def tie(ctx):
     cases = all_cases(ctx)
-    ctx.c09_cases = cases
     exe = _model["exe"]
-    mism, stats, n, nontriv, samples = compare_resolver(cases, exe)
-    # model-internal: the resolver with all scopes restored == the scope-list specification
-    lines = [c for _, c in cases]
-    trees = vlib.harness("treef", lines)
-    hx = [t.split(" ")[1] for t in trees if t.startswith("TREE ")]
-    fixed = vlib.model(exe, ["fixed"], hx)
-    spec = vlib.model(exe, ["spec"], hx)
-    pinned = vlib.model(exe, ["resolve"], hx)
-    differ = 0
-    for a, b, c in zip(fixed, spec, pinned):
-        if a != b:
-            mism.append({"case": "spec-vs-fixed-resolver", "fixed": a[:300], "spec": b[:300]})
-        if c != b:
-            differ += 1
-    stats["spec == resolver with restored scopes"] = len(hx) - sum(1 for a, b in zip(fixed, spec) if a != b)
-    stats["pinned resolver differs from spec (scope leak visible)"] = differ
+    mism, stats, n, samples = [], collections.Counter(), 0, []
+    nontriv = 0
+    # in chunks: the dumps of std-bundled programs are large
+    for k in range(0, len(cases), 800):
+        chunk = cases[k:k + 800]
+        m1, st1, n1, nt1, smp = compare_resolver(chunk, exe)
+        mism += m1
+        stats.update(st1)
+        n += n1
+        nontriv += nt1
+        samples = samples or smp
+        # model-internal: the resolver with all scopes restored == the scope-list specification
+        lines = [c for _, c in chunk]
+        trees = vlib.harness("treef", lines)
+        hx = [t.split(" ")[1] for t in trees if t.startswith("TREE ")]
+        fixed = vlib.model(exe, ["fixed"], hx)
+        spec = vlib.model(exe, ["spec"], hx)
+        pinned = vlib.model(exe, ["resolve"], hx)
+        for a, b, c in zip(fixed, spec, pinned):
+            if a != b:
+                mism.append({"case": "spec-vs-fixed-resolver", "fixed": a[:300], "spec": b[:300]})
+            else:
+                stats["spec == resolver with all four flags on"] += 1
+            if c != b:
+                stats["pinned resolver differs from spec (scope leak / namespace-before-local visible)"] += 1
     return {"name": "resolver", "ok": not mism, "mismatches": mism[:10], "evaluations": n,
             "distinct_nontrivial": nontriv,
             "rule": "every /repo/tests/**/*.sy that parses (std bundled), corpus/c09|c11|c12, generated programs under "
                     "distinct and shadowing namings, with planted scope violations, multi-file layouts and import-error "
                     "projects; model input = real `treef` dump; compared: OK + full Vec<Var>/Vec<Statement> dump, or the "
-                    "first error (message class, file, line, columns); distinct by output",
+                    "first error (message class, file, line, columns); distinct by output (per chunk of 800)",
             "samples": samples, "distribution": dict(stats)}
 
 
